@@ -4,20 +4,14 @@ Property theorems only (lemmas: `Proofs/Frame.lean`).
 -/
 import SxVerif.Model.Proc
 import SxVerif.Spec.Frame
+import SxVerif.Spec.Faithful
 import SxVerif.Proofs.Frame
 
 namespace SxVerif.C06
 open SxVerif.Frame SxVerif.Proc SxVerif.Spec.Frame
 
-/-- what a record of scan `scan` must be, given the frame it was emitted for: the frame contains the
-    scan's header chain and every field of the record is read from that frame -/
-def Faithful (scan : Scan) (f : Bytes) (r : Record) : Prop :=
-  match scan with
-  | .tcp cfg => ∃ v, tcpChain cfg.vpn f = some v ∧
-      r = .tcp cfg.scanType v.src v.sport (match cfg.flagsFn with | .allFlags => allFlags v.flags | .empty => "") ∧
-      (cfg.filter = .synack → bit v.flags 0x02 = true ∧ bit v.flags 0x10 = true) ∧ v.src.length = 4
-  | .icmp name vpn => ∃ v, icmpChain vpn f = some v ∧ r = .icmp name v.src v.ttl v.typ v.code ∧ v.src.length = 4
-  | .arp => ∃ v, arpChain f = some v ∧ r = .arp v.ip v.mac ∧ v.ip.length = 4 ∧ v.mac.length = 6
+-- `Faithful scan f r` (what a record must be, given the frame it was emitted for) is defined in
+-- `Spec/Faithful.lean` (namespace `SxVerif.Spec.Frame`), so that `Proofs/Frame.lean` can state its lemmas.
 
 /-- **C06, one frame, any prior state**: processing any byte string, starting from *any* contents of
     the reused decoder structs, never crashes; and if it emits a record, the frame itself contains the
